@@ -90,7 +90,7 @@ DETECTION = ["sideloader", "hmm_detection"]
 
 REQUIRED = (
     [f"op:bytes:{m}" for m in MODULES] + [f"nonempty:{m}" for m in MODULES]
-    + ["guard:results-file:schema", "op:record-features", "op:second-cycle", "op:predicted-areas", "op:reused-object",
+    + ["glue:reuse-with-limit", "guard:results-file:schema", "op:record-features", "op:second-cycle", "op:predicted-areas", "op:reused-object",
        "shape:protocluster-over-origin", "shape:sideloaded-area-over-origin", "shape:cross-cds-module",
        "shape:double-carrier-module", "shape:nested-subtype", "shape:split-tta-codon", "shape:tta-skipped-low-gc",
        "shape:gc-equals-threshold", "shape:fungal-multipliers", "shape:hmmer-boundary-hit",
@@ -991,9 +991,48 @@ def _c11_hmmer_refilter_keeps_threshold_hits(clause, facts):
 # entry points
 # ---------------------------------------------------------------------------------------------
 
+def reuse_pairing_glue(ctx, rng) -> None:
+    """ a results file of several records is reused: main._run_antismash pre-processes the records it read and then
+        pairs them with their saved results by position. Whatever --limit says, every record must still meet its own
+        results afterwards. """
+    from Bio.Seq import Seq
+    from antismash.common import record_processing
+    from antismash.common.secmet import Record
+    from antismash.support import genefinding
+    keep = {key: get_config().get(key) for key in ("reuse_results", "limit", "minlength", "limit_to_record")}
+    try:
+        for count in (2, 3, 4):
+            lengths = rng.sample([400, 1200, 800, 600, 1500, 1000], count)
+            for limit in (-1, count + 1, count, count - 1, 1):
+                records = [Record(Seq("ACGT" * (length // 4)), id=f"rec_{i}", name=f"rec_{i}",
+                                  annotations={"molecule_type": "DNA", "topology": "linear"})
+                           for i, length in enumerate(lengths)]
+                saved = [{"record_id": record.id} for record in records]
+                case = {"glue": "reuse-pairing", "lengths": lengths, "limit": limit}
+                update_config({"reuse_results": "previous.json", "limit": limit, "minlength": 0, "limit_to_record": ""})
+                ctx.count("glue:reuse-with-limit")
+                ok, processed = ctx.guard("pre-processing-crash", case, record_processing.pre_process_sequences,
+                                          records, get_config(), genefinding)
+                if not ok:
+                    continue
+                pairs = [(record.id, results["record_id"]) for record, results in zip(processed, saved)]
+                if len(processed) != len(saved) or any(a != b for a, b in pairs):
+                    ctx.violate("reused-results-meet-their-own-record",
+                                {"lengths": lengths, "limit": limit, "pairs": pairs}, case)
+                analysed = [record.id for record in processed if not record.skip]
+                expected = count if limit == -1 else min(limit, count)
+                if len(analysed) != expected:
+                    ctx.violate("limit-leaves-the-largest-records",
+                                {"lengths": lengths, "limit": limit, "analysed": analysed}, case)
+    finally:
+        update_config({key: value for key, value in keep.items()})
+
+
 def run(ctx):
     setup(ctx)
     try:
+        if ctx.worker == 0:
+            ctx.guard("harness-or-crash", {"glue": "reuse-pairing"}, reuse_pairing_glue, ctx, ctx.rng("glue"))
         rng = ctx.rng("cases")
         for _ in ctx.cases(ctx.quota(260, 50000), every=4):
             case = C.gen_case(rng)
@@ -1005,6 +1044,9 @@ def run(ctx):
 def replay(ctx, case):
     setup(ctx)
     try:
+        if "glue" in case:
+            reuse_pairing_glue(ctx, ctx.rng("glue"))
+            return
         run_case(ctx, case)
     finally:
         teardown()
